@@ -1,5 +1,21 @@
 # C02: pieces of the series inverse solver are modelled in Lean (Model/GeodInvSeries.lean)
+import hashlib as _hl, os as _os
+_verif = _os.path.dirname(_os.path.dirname(_os.path.dirname(_os.path.abspath(__file__))))
+_repo = _os.environ.get("GV_REPO", "/repo")
+
+
+def _tool_digest():
+    # harness/C02.cpp compiles $GV_REPO/tools/GeodSolve.cpp into itself (observe_at: tools/GeodSolve -i): the harness cache key must
+    # depend on its text (the generic key covers only the library and the harness sources)
+    try:
+        return _hl.sha256(open(_os.path.join(_repo, "tools", "GeodSolve.cpp"), "rb").read()).hexdigest()[:16]
+    except OSError:
+        return "0"
+
+
 _P = PROPS["C02"]
+_P["harnesses"] = [dict(name="C02", procs_quick=4, procs_thorough=16,
+                        extra=["-I" + _os.path.join(_verif, "harness", "C10_tools"), "-DGV_TOOLS_DIGEST=0x" + _tool_digest()])]
 _P["gens"] = ["gen_math", "gen_geodseries"]
 _P["rule"] += ("; for every pair with f < 1 the private Geodesic::InverseStart, Geodesic::Lambda12 (on the pair's reduced latitudes, a trial azimuth incl. 0, 90, 180 ± 1e-10, "
                "and the longitude difference) and Geodesic::Astroid (axis, tiny y, next to the evolute, far field) are compared with Model/GeodInvSeries.lean, "
